@@ -48,6 +48,16 @@ def _worker(args):
                 "obligations": []}
 
 
+def _retry_worker(args):
+    qual, pid, names = args
+    try:
+        prog, reg = _init()
+        verify.QUICK_ATTEMPT_MS, verify.OB_BUDGET_S = 60000, 400
+        return verify.verify_function(prog, reg, qual, only_serves=[pid], only_names=set(names))
+    except Exception as e:  # pragma: no cover
+        return {"function": qual, "status": "engine_error", "error": str(e), "obligations": []}
+
+
 def _any_worker(task):
     kind = task[0]
     if kind == "P":
@@ -203,7 +213,7 @@ def main(argv):
         tasks = []
         for q in funcs:
             nl = len(reg.contracts[q].loops)
-            n = 12 if nl >= 2 else (3 if nl == 1 else 1)
+            n = 8 if nl >= 2 else (2 if nl == 1 else 1)
             for i in range(n):
                 tasks.append((q, pid, both, (i, n) if n > 1 else None))
         tasks.sort(key=lambda t: -len(reg.contracts[t[0]].loops))
@@ -211,7 +221,7 @@ def main(argv):
     all_tasks = [("F", pid, tier)] + [("P",) + t for t in (tasks if funcs else [])] + \
                 [("B", q, bound, pid, 40000 if tier == "quick" else 400000, 60 if tier == "quick" else 600) for q in funcs]
     ctx = mp.get_context("fork")
-    with ctx.Pool(min(16, max(1, len(all_tasks)))) as pool:
+    with ctx.Pool(min(16, max(1, len(all_tasks))), maxtasksperchild=1) as pool:
         results = pool.map(_any_worker, all_tasks, chunksize=1)
     f_pre = [r for t, r in zip(all_tasks, results) if t[0] == "F"][0]
     b_pre = [r for t, r in zip(all_tasks, results) if t[0] == "B"]
@@ -227,6 +237,25 @@ def main(argv):
                 if rep["status"] != "ok" and m["status"] == "ok":
                     m["status"], m["error"] = rep["status"], rep.get("error")
         reports = list(merged.values())
+    # second chance for obligations of functions whose code is unchanged since the verified baseline: identical VCs,
+    # so anything but 'proved' is solver flakiness (load, time-outs): retry alone with a generous budget
+    retry = {}
+    for rep in reports:
+        if rep["status"] == "ok" and unchanged_since_baseline(rep):
+            names = [o["name"] for o in rep["obligations"] if o["result"] != "proved"]
+            if names:
+                retry[rep["function"]] = set(names)
+    if retry:
+        os.environ["PYVC_QUICK_MS"] = "60000"
+        os.environ["PYVC_OB_BUDGET_S"] = "400"
+        verify.QUICK_ATTEMPT_MS, verify.OB_BUDGET_S = 60000, 400
+        with ctx.Pool(min(8, len(retry)), maxtasksperchild=1) as pool:
+            again = pool.map(_retry_worker, [(q, pid, sorted(ns)) for q, ns in retry.items()], chunksize=1)
+        for rep2 in again:
+            better = {o["name"]: o for o in rep2.get("obligations", []) if o["result"] == "proved"}
+            for rep in reports:
+                if rep["function"] == rep2["function"]:
+                    rep["obligations"] = [better.get(o["name"], o) if o["result"] != "proved" else o for o in rep["obligations"]]
     p_obl = p_dis = 0
     by_backend = {}
     solver_time = 0.0
